@@ -4,6 +4,12 @@
   an instant: the block in which an allocation process reports its task finished runs
   after the `allocate_tasks` block of that task's observation (`pollAfterSched`).
   Invariant `PX` and its generic preservation.
+  -- F13: with the repair (`allocate_task_to_cluster` reports a task finished only at a time
+  -- `≥ aft`) `PX` is preserved by every step without the order condition (Preced16/17:
+  -- `px_allocTask`, `reach_px` over plain `Reach`); `pollAfterSched` / `ReachSchedFirst` are kept
+  -- as definitions (the simulator's runs satisfy them).  Note that `pollAfterSched` speaks of the
+  -- blocks in which the process "finds its task's body ended" (`procTriggered`); with the repair
+  -- such a block reports the task finished only if also `now ≥ aft`.
 -/
 import TopsimProofs.Preced13
 
